@@ -1,6 +1,7 @@
 /- Line-protocol handlers for the path models (C10, routing part of C03). -/
 import SkNet.Model.Path
 import SkNet.Spec.Path
+import SkNet.Spec.Route
 
 namespace SkNet.Drive.C10
 open SkNet SkNet.Proto SkNet.Path
@@ -93,6 +94,14 @@ def handle : Handler
       let d ← intList? d
       let want := tab k (hopDist k e (fun v => src.contains v))
       some (if d == want then "holds" else "fails want=" ++ showList want)) "bad-args"
+  -- the refusals of the routing (Spec/Route.lean), evaluated on the outcome class the implementation produced
+  | "c10.spec_route", [nRow, nCol, s, sr, sc, tr, fb, outcome] => some <| Option.getD (do
+      let a : DistArgs := { source := ← optList? s, sourceRow := ← optList? sr, sourceCol := ← optList? sc,
+                            transpose := ← bool? tr, forceBipartite := ← bool? fb }
+      let rs := routeSpec (← nRow.toNat?) (← nCol.toNat?) a
+      let want := if decide (rs.ValueError a) then "ValueError" else if decide rs.IndexError then "IndexError"
+                  else if rs.bipartite then "ok-p" else "ok-s"
+      some (if outcome == want then "holds" else "fails want=" ++ want)) "bad-args"
   -- bipartite answer: the two returned vectors separately (the split point is part of the specification)
   | "c10.spec_bdist", [n, m, ip, ix, dt, tr, s, rows, cols] => some <| Option.getD (do
       let (k, e) ← specGraph n m ip ix dt tr "1"
